@@ -661,13 +661,75 @@ class Body:
                 out.append((bi, t_t, f_t))
         return out
 
-    def guarded_by_call(self, bb, call, want=True):
-        """Block `bb` is reachable only through the `want` edge of a switch on call's bool result."""
-        for (sw, t_t, f_t) in self.bool_edges(call.dest["l"]):
+    def guarded_by_call(self, bb, call, want=True, stale_after=()):
+        """Block `bb` is reachable only through the `want` edge of a switch on call's bool result — directly, or through a bool
+        local that can be true only if the result was `want` (`let ok = a && pred(..);  .. if ok`).  `stale_after`: calls after
+        which the stored answer is out of date; none of them may lie between the predicate call and `bb`."""
+        r = call.dest["l"]
+        for (sw, t_t, f_t) in self.bool_edges(r):
             tgt = t_t if want else f_t
             if tgt is not None and self.edge_dominates(sw, tgt, bb) and self.dominates(call.bb, bb):
-                return True
+                if not any(self._between(call.bb, x.bb, bb, {d[0] for d in self.defs().get(r, [])}) for x in stale_after):
+                    return True
+        # through a local that implies the result
+        for L in range(len(self.locals)):
+            if self.local_ty(L) != "bool" or (L == r and not want) or not self._implies(L, r, want, 0, call):
+                continue
+            for (sw, t_t, f_t) in self.bool_edges(L):
+                if t_t is not None and self.edge_dominates(sw, t_t, bb):
+                    # the stored answer is refreshed wherever the result local is (re)assigned: a stale_after call is harmful only if
+                    # `bb` can be reached from it without passing such a point
+                    fresh = {d[0] for d in self.defs().get(r, [])}
+                    if not any(self._between(call.bb, x.bb, bb, fresh) for x in stale_after):
+                        return True
         return False
+
+    def _implies(self, L, r, want, depth, call=None):
+        """Whenever local L holds true, the bool local r (the result of `call`) held `want` when L was assigned.  The result may be
+        written into L itself (`let ok = a && pred()` stores pred()'s result or the constant false into the same local)."""
+        if depth > 4:
+            return False
+        defs = self.defs().get(L, [])
+        if not defs or (L == r and len(defs) < 2 and call is not None):
+            return False
+        r_edges = self.bool_edges(r) if L != r else []
+        for (bi, si, kind, payload) in defs:
+            if kind == "call" and L == r and call is not None and bi == call.bb and want:
+                continue
+            if kind != "assign":
+                return False
+            rv = payload["rv"]
+            if rv["k"] == "use" and rv["op"].get("c") == "const":
+                if str(rv["op"].get("v")).lower() in ("false", "0") or rv["op"].get("i") == 0:
+                    continue
+                # `true` stored: only fine under the `want` edge of a switch on r
+            if rv["k"] == "use" and op_local(rv["op"]) is not None:
+                m = op_local(rv["op"])
+                if (m == r and want and L != r) or (m != r and self._implies(m, r, want, depth + 1, call)):
+                    continue
+            if rv["k"] == "unop" and rv.get("uop") == "Not" and op_local(rv["op"]) == r and not want:
+                continue
+            if any((t_t if want else f_t) is not None and self.edge_dominates(sw, (t_t if want else f_t), bi) for (sw, t_t, f_t) in r_edges):
+                continue
+            return False
+        return True
+
+    def _between(self, a, x, b, avoid=()):
+        """Is there a path a -> x -> b (x reached after a, and b reached from x without going through a or `avoid` again)?"""
+        avoid = set(avoid) | {a}
+
+        def reach(src, dst, av):
+            seen, stack = {src}, [src]
+            while stack:
+                n = stack.pop()
+                for s2 in self.succs_of(n):
+                    if s2 == dst:
+                        return True
+                    if s2 not in seen and s2 not in av:
+                        seen.add(s2)
+                        stack.append(s2)
+            return False
+        return (x == a or reach(a, x, set())) and (x == b or reach(x, b, avoid))
 
     # -- liveness (backward, use-based) -------------------------------------------------
     def liveness(self, drop_is_use=False):
